@@ -194,7 +194,7 @@ def c11_3(ck, prog):
             for k, v in ctx.env.items():
                 if k[0] == 'v' and ctx.ex.tracked.get(k[1]) == 'succeeded':
                     t = v
-            ok = any(ctx.result_known(c) is True for c in cp) or (t is not None and t == ('c', 1)) or (t == ('nz',))
+            ok = any(ctx.result_known(c) is True for c in cp) or (t is not None and t == ('c', 1)) or (t is not None and t[0] == 'nz')
             if not ok:
                 ctx.report('the auth buffer is emptied although the bytes were not copied to the loader', ev['line'],
                            key='delete-before-copy')
